@@ -137,7 +137,7 @@ def _run(ka, wa, kb, wb, kc, wc, f1, m1, f2, m2, f3, fan, role, is_port):
         return ok
 
 
-@harness("C10", also=("C06", "C11"),
+@harness("C10", also=("C11",),
          args="ka: int, wa: int, kb: int, wb: int, kc: int, wc: int, f1: bool, m1: bool, f2: bool, m2: bool, f3: bool, fan: bool, role: int, is_port: bool",
          pre=[f"0 <= ka < {KINDS}", f"0 <= kb < {KINDS}", f"0 <= kc < {KINDS}", "1 <= wa", "1 <= wb", "1 <= wc", "0 <= role <= 2"],
          tiers={"quick": {"timeout": 170, "pre": ["wa <= 2 and wb == 1 and wc == 1", "kb == kc or kb == 0", "m1 == False or f1 == False", "m2 == False"],
